@@ -22,7 +22,7 @@ LEVEL_NOTE = "Trusted: seam completeness for lock access; planted IDs are >= 50 
 RULE = ("case index -> configuration point (index mod 216, complete product) or error configuration; world seeded per case; 1 run, "
         "+1 run after 'delete top statement, add one' for lock-using edit points. Non-trivial = every case (each is a distinct "
         "(point, world)); distinct = case index.")
-PROBES = ["stale_lock_tmp", "cache_on_partial_failure", "cache_off_abnormal_ending", "cache_off", "cache_omitted", "lock_valid", "lock_corrupt", "lock_empty", "lock_absent", "structured_omitted",
+PROBES = ["lock_with_long_head", "stale_lock_tmp", "cache_on_partial_failure", "cache_off_abnormal_ending", "cache_off", "cache_omitted", "lock_valid", "lock_corrupt", "lock_empty", "lock_absent", "structured_omitted",
           "extensions_omitted", "error_config", "second_run"]
 ASSUMPTIONS = ["fault-free runs"]
 DEADLINE = {"quick": 200, "thorough": 3000}
@@ -68,6 +68,17 @@ def build_world(rng, use_cache, lockstate, structured, exts):
     wm = {"cfg": cfg, "files": files, "extra": {}, "lock": None, "nmark": g.n}
     if lockstate == "valid":
         wm["lock"] = core.lock_text(rng.randrange(5000, 9000))
+        if rng.random() < 0.25:
+            # a lock that grew a long comment head (licence header hook, team notes): still the same valid YAML; the key
+            # line sits beyond, or right across, the sizes a reader might use as a buffer
+            n = rng.choice([1003, 1010, 1100, 2040, 4090, 8185, 20000])
+            head = b""
+            while len(head) < n:
+                head += b"# " + b"note " * min(13, max(0, (n - len(head) - 3) // 5)) + b"\n"
+                if n - len(head) < 8:
+                    head += b"#" * max(0, n - len(head) - 1) + b"\n"
+            wm["lock"] = head[:n - 1] + b"\n" + b"next_reference_id: %d\n" % rng.randrange(5000, 9000)
+            wm["long_lock"] = True
     elif lockstate == "corrupt":
         wm["lock"] = rng.choice(CORRUPT)
     elif lockstate == "empty":
@@ -333,6 +344,8 @@ def run_case(rng, idx, tier, ctx):
         wm = build_world(rng, use_cache, lockstate, structured, exts)
         ctx.probes[{True: "cache_on", None: "cache_omitted", False: "cache_off"}[use_cache]] += 1
         ctx.probes["lock_" + lockstate] += 1
+        if wm.get("long_lock"):
+            ctx.probes["lock_with_long_head"] += 1
         if "proj/Breadlog.lock.tmp" in wm["extra"]:
             ctx.probes["stale_lock_tmp"] += 1
         if structured is None:
